@@ -32,7 +32,31 @@ ListAsSet(x) == IF x[1] = "list" THEN <<"set", Ran(x[2]), Len(x[2])>> ELSE x
 NormFact(f) == [p |-> f.p, a |-> [i \in DOMAIN f.a |-> ListAsSet(f.a[i])]]
 Observed(c, v) == IF IsAgg(c) THEN {NormFact(f) : f \in SetOf(v.got)} ELSE SetOf(v.got)
 
+(***************************************************************************)
+(* Limit family (C17): the case carries the configured created-fact limit. *)
+(* The model is computed with fuel = limit + |edb| + 2 rounds; every        *)
+(* non-final round adds a fact, so a model that has not converged by then  *)
+(* needs more created facts than the limit allows and an "ok" return would *)
+(* be a truncated result.  created is what the counting store observed.    *)
+(***************************************************************************)
+HasLimit(c) == "limit" \in DOMAIN c /\ c.limit > 0
+LimitFuel(c) == c.limit + Len(c.edb) + 2
+Converged(c) == StratifiedModelFuel(RulesOf(c), SetOf(c.edb), LimitFuel(c))
+                  = StratifiedModelFuel(RulesOf(c), SetOf(c.edb), LimitFuel(c) + 1)
+CreatedBound(c) == 4 * (Len(c.rules) + 2) * (c.limit + 1)
+LimitVerdict(c, v) ==
+  IF v.outcome = "runaway" THEN "RUNAWAY"
+  ELSE IF v.created > CreatedBound(c) THEN "OVER_BOUND"
+  ELSE IF ~AllSafe(c) \/ ~Stratifiable(RulesOf(c)) THEN "fine"
+  ELSE IF ~Converged(c) THEN (IF v.outcome = "ok" THEN "TRUNCATED_OK" ELSE "fine")
+  ELSE LET M == StratifiedModelFuel(RulesOf(c), SetOf(c.edb), LimitFuel(c)) IN
+       IF HasErr(RulesOf(c), M) THEN "fine"
+       ELSE IF v.outcome = "ok" THEN (IF Observed(c, v) = M THEN "fine" ELSE "MODEL_MISMATCH")
+       ELSE IF v.outcome \in {"eval_err", "panic"} THEN "EVAL_FAILURE"
+       ELSE "fine"
+
 Verdict(c, v) ==
+  IF HasLimit(c) THEN LimitVerdict(c, v) ELSE
   IF ~AllSafe(c) THEN (IF v.outcome = "ok" THEN "ACCEPTED_UNSAFE" ELSE "fine")
   ELSE IF ~Stratifiable(RulesOf(c)) THEN (IF v.outcome = "ok" THEN "ACCEPTED_UNSTRATIFIABLE" ELSE "fine")
   ELSE IF HasErr(RulesOf(c), Expected(c)) THEN "fine"   \* run-time kind error: no model to compare with
@@ -41,17 +65,29 @@ Verdict(c, v) ==
          [] v.outcome \in {"eval_err", "panic"} -> "EVAL_FAILURE"
          [] OTHER -> "fine"
 
-Class(c) == IF ~AllSafe(c) THEN "unsafe" ELSE IF ~Stratifiable(RulesOf(c)) THEN "unstrat"
+Class(c) == IF HasLimit(c) THEN (IF ~AllSafe(c) THEN "unsafe" ELSE IF ~Stratifiable(RulesOf(c)) THEN "unstrat"
+                                 ELSE IF Converged(c) THEN "finite" ELSE "diverging") ELSE
+            IF ~AllSafe(c) THEN "unsafe" ELSE IF ~Stratifiable(RulesOf(c)) THEN "unstrat"
             ELSE IF HasErr(RulesOf(c), Expected(c)) THEN "typeerr" ELSE "model"
 
 Bad(c) == {i \in DOMAIN c.variants : Verdict(c, c.variants[i]) # "fine"}
+
+\* what one more application of the plain rules to the observed store would add: if the observed
+\* store is not closed under the rules, these are the facts the engine failed to derive next
+NextMissing(c, v) ==
+  LET got == SetOf(v.got) IN
+  (UNION {Derive(r, got) : r \in {x \in RulesOf(c) : ~IsDo(x)}}) \ got
 
 Report(c) ==
   LET bad == Bad(c) IN
   /\ PrintT(<<"CLASS", c.id, Class(c)>>)
   /\ \A i \in bad :
+       PrintT(<<"MISSING", c.id, i, ToJson(IF Verdict(c, c.variants[i]) \in {"TRUNCATED_OK", "MODEL_MISMATCH"} /\ ~IsAgg(c)
+                                           THEN NextMissing(c, c.variants[i]) ELSE {})>>) /\
        PrintT(<<"MISMATCH", c.id, i, Verdict(c, c.variants[i]),
-                IF Class(c) = "model" THEN ToJson(Expected(c)) ELSE "null">>)
+                IF Class(c) = "model" THEN ToJson(Expected(c))
+                ELSE IF Class(c) = "finite" THEN ToJson(StratifiedModelFuel(RulesOf(c), SetOf(c.edb), LimitFuel(c)))
+                ELSE "null">>)
 
 Init == l = 1
 Next == /\ l <= Len(Trace)
